@@ -476,9 +476,13 @@ def _c19_mutate(rec):
 
 reg(P("C19", "push", "c19",
       mc={"quick": [("PushMC", "Push_fix.cfg", 600), ("PushMC", "Push_live.cfg", 600),
-                    ("PushMC", "Push_bug.cfg", 600, "violation"), ("PushMC", "Push_bug_hb.cfg", 600, "violation")],
+                    ("PushMC", "Push_bug.cfg", 600, "violation"), ("PushMC", "Push_bug_hb.cfg", 600, "violation"),
+                    ("ProsumerMC", "Prosumer_queue.cfg", 600), ("ProsumerMC", "Prosumer_resub.cfg", 600),
+                    ("ProsumerMC", "Prosumer_async.cfg", 600, "violation"), ("ProsumerMC", "Prosumer_two_loops.cfg", 600, "violation")],
           "thorough": [("PushMC", "Push_fix.cfg", 600), ("PushMC", "Push_fix_big.cfg", 900), ("PushMC", "Push_live.cfg", 900),
-                       ("PushMC", "Push_bug.cfg", 600, "violation"), ("PushMC", "Push_bug_hb.cfg", 600, "violation")]},
+                       ("PushMC", "Push_bug.cfg", 600, "violation"), ("PushMC", "Push_bug_hb.cfg", 600, "violation"),
+                       ("ProsumerMC", "Prosumer_queue.cfg", 600), ("ProsumerMC", "Prosumer_resub.cfg", 600),
+                       ("ProsumerMC", "Prosumer_async.cfg", 600, "violation"), ("ProsumerMC", "Prosumer_two_loops.cfg", 600, "violation")]},
       traces=[("", "PushTrace", "PushTrace.cfg")],
       level="model_checking",
       rule="cases = every script up to the tier's length over 11 operations (subscribe, unsubscribe, unicast, multicast, "
@@ -487,7 +491,8 @@ reg(P("C19", "push", "c19",
            "publishes; 4 gate-forced orders x 2 time-outs; heart-beat scenarios over tcp and mock (a publisher disconnects "
            "after its publish woke the poll, polls that find messages at once while publishers come and go, a client "
            "that lets the heart beat lapse); a real Prosumer with callbacks (a third of them slow) and 1-2 publishers over tcp "
-           "and mock, every callback a delivery event; every case ends with polls until two come back empty; "
+           "and mock, every callback a delivery event, a third of the runs with a goroutine that subscribes/unsubscribes "
+           "another topic during the traffic (Prosumer.tla: one poll loop, queued hand-over); every case ends with polls until two come back empty; "
            "non-trivial = at least one publish",
       assumptions=["except in the heart-beat scenarios the heartbeat is disabled (HeartBeat = 0) so that delivery is judged "
                    "independently of the heartbeat-driven offline detection", "one poll per client id at a time (as the Prosumer does)",
